@@ -124,6 +124,12 @@ fn request_question(req: &[u8]) -> Option<(DomainName, u16)> {
 pub const T0: u64 = 1_000_000_000;
 
 pub fn run_scenario(sc: &Scenario, out: &mut Out, cmd: &str) {
+    run_scenario_clock(sc, out, cmd, false)
+}
+
+/// `real_clock`: tokio's clock is NOT paused - the 60 s budget is then wall-clock time, which is what a
+/// resolution that never waits on the network (CPU-bound search) has to be measured against
+pub fn run_scenario_clock(sc: &Scenario, out: &mut Out, cmd: &str, real_clock: bool) {
     let cache = SharedCache::with_desired_size(512);
     verif::set_clock_nanos(T0);
     cache.insert_all(&sc.cache_rrs);
@@ -175,8 +181,8 @@ pub fn run_scenario(sc: &Scenario, out: &mut Out, cmd: &str) {
     let log_c = log.clone();
     // the whole resolution runs under a watchdog: a resolver that spins in synchronous code (where no
     // tokio timeout can fire) shows up as `hang` for exactly this scenario
-    let text = crate::watch::text(30, move || {
-        let rt = tokio::runtime::Builder::new_current_thread().enable_time().start_paused(true).build().unwrap();
+    let text = crate::watch::text(if real_clock { 100 } else { 30 }, move || {
+        let rt = tokio::runtime::Builder::new_current_thread().enable_time().start_paused(!real_clock).build().unwrap();
         let (res, elapsed) = rt.block_on(async {
             let start = tokio::time::Instant::now();
             let (_metrics, res) =
@@ -874,6 +880,62 @@ pub fn universe_scenario(r: &mut Rng, single_ns: bool, dual: bool) -> Scenario {
     }
 }
 
+/// family "mutual": two zones whose nameservers (k each, no glue) live in each other.  No address can ever
+/// be found; after the two referrals are cached the search for one goes on without a single upstream
+/// exchange (depth-first over the hosts not yet on the question stack).
+pub fn mutual_scenario(k: usize) -> Scenario {
+    let root_host = nm("r.root.");
+    let root_ip = IpAddr::V4(Ipv4Addr::new(10, 0, 0, 1));
+    let root = DomainName::root_domain();
+    let mut zone = Zone::new(root.clone(), None);
+    let mut spec = format!("{}!-", c::name(&root));
+    for (n, d) in [
+        (root.clone(), RecordTypeWithData::NS { nsdname: root_host.clone() }),
+        (root_host.clone(), RecordTypeWithData::A { address: Ipv4Addr::new(10, 0, 0, 1) }),
+    ] {
+        spec.push_str(&format!("!i:{}", c::rr(&rr(&n, d.clone(), 300))));
+        zone.insert(&n, d, 300);
+    }
+    let mut zones = Zones::new();
+    zones.insert_merge(zone);
+    let question = Question { name: nm("x.a."), qtype: QueryType::from(1u16), qclass: QueryClass::Record(RecordClass::IN) };
+    let hosts = |zone_of_hosts: &str| -> Vec<DomainName> { (0..k).map(|i| nm(&format!("ns{i}.{zone_of_hosts}."))).collect() };
+    let referral = |q: &Question, apex: &str, in_zone: &str| -> Message {
+        let mut m = reply_to(q);
+        m.header.recursion_available = false;
+        for h in hosts(in_zone) {
+            m.authority.push(rr(&nm(&format!("{apex}.")), RecordTypeWithData::NS { nsdname: h }, 300));
+        }
+        m
+    };
+    let mut script = Vec::new();
+    let mut add = |q: Question, m: Message| {
+        script.push(Entry { addr: root_ip, tcp: false, qname: q.name.clone(), qtype: u16::from(q.qtype), delay_ms: 3, reply: Reply::Msg { m, same_id: true } });
+    };
+    add(question.clone(), referral(&question, "a", "b"));
+    for h in hosts("b") {
+        // a name under b.: the root refers to b.'s servers, which live under a.
+        let q = Question { name: h, qtype: QueryType::from(1u16), qclass: question.qclass };
+        let m = referral(&q, "b", "a");
+        add(q, m);
+    }
+    for h in hosts("a") {
+        let q = Question { name: h, qtype: QueryType::from(1u16), qclass: question.qclass };
+        let m = referral(&q, "a", "b");
+        add(q, m);
+    }
+    Scenario {
+        mode: Mode::Rec(ProtocolMode::OnlyV4, 53),
+        zone_specs: vec![spec],
+        zones,
+        cache_rrs: Vec::new(),
+        script,
+        question,
+        expect: None,
+        family: "mutual",
+    }
+}
+
 /// family "faults": a universe with faults assigned to its exchanges (C08)
 pub fn fault_scenario(r: &mut Rng) -> Scenario {
     let mut sc = universe_scenario(r, true, false);
@@ -1007,9 +1069,15 @@ pub fn run(r: &mut Rng, n: usize, which: &str, out: &mut Out) {
                 _ => universe_scenario(r, true, false),
             },
             "faults" => fault_scenario(r),
+            "mutual" => mutual_scenario(2 + i % 4),
+            "mutual-real" => mutual_scenario(std::env::var("VERIF_MUTUAL_K").ok().and_then(|v| v.parse().ok()).unwrap_or(8)),
             _ => unreachable!(),
         };
-        run_scenario(&sc, out, "resolve");
+        if which == "mutual-real" {
+            run_scenario_clock(&sc, out, "resolve-real", true);
+        } else {
+            run_scenario(&sc, out, "resolve");
+        }
     }
     verif::disarm_clock();
 }
